@@ -1,6 +1,7 @@
 package indexer
 
 import (
+	"fmt"
 	"time"
 
 	"github.com/tendermint/tendermint/libs/pubsub/query"
@@ -108,6 +109,26 @@ func LookForRanges(conditions []query.Condition) (ranges QueryRanges, indexes []
 	}
 
 	return ranges, indexes
+}
+
+// CheckRangeOperands returns an error for the first range condition (<, <=, >,
+// >=) whose operand the kv indexers cannot compare with the indexed values: only
+// int64 bounds (and time.Time bounds) are implemented. A float64 bound, which the
+// query grammar accepts, has to be refused: the indexed values are compared as
+// integers.
+func CheckRangeOperands(conditions []query.Condition) error {
+	for _, c := range conditions {
+		if !IsRangeOperation(c.Op) {
+			continue
+		}
+		switch c.Operand.(type) {
+		case int64, time.Time:
+		default:
+			return fmt.Errorf("range condition on %s: operands of type %T are not supported by the indexer (integer expected)",
+				c.CompositeKey, c.Operand)
+		}
+	}
+	return nil
 }
 
 // IsRangeOperation returns a boolean signifying if a query Operator is a range
